@@ -65,8 +65,13 @@ def clsMigrateRenew (pre : State) : Op → Bool
     (left by a failed or simulated staking message): the class of finding F06 -/
 def clsStaleGlobal (pre : Sys) : Bool := pre.global ≠ 0
 
+def isStakingOp : Op → Bool
+  | .delegate .. => true
+  | .undelegate .. => true
+  | _ => false
+
 def classOf (pre : Sys) (op : Op) : String :=
-  if clsStaleGlobal pre then "stale-global"
+  if clsStaleGlobal pre && isStakingOp op then "stale-global"
   else if clsMigrateRenew pre.st op then "migrate-renew" else "none"
 
 /-! ### C09: which data models may a request change -/
@@ -130,6 +135,45 @@ def actorViolations (pre : State) (op : Op) : List String :=
     | none => []
   | _ => []
 
+/-! ### C19: fault reports -/
+def isFaultOp : Op → Bool
+  | .report .. => true
+  | .recover .. => true
+  | _ => false
+
+def faultOpCreator : Op → Addr
+  | .report c _ _ _ => c
+  | .recover c _ _ _ => c
+  | _ => 0
+
+def faultOpProvider : Op → Addr
+  | .report _ p _ _ => p
+  | .recover _ p _ _ => p
+  | _ => 0
+
+/-- violations of C19 by an accepted report / recover message -/
+def faultViolations (pre post : State) (op : Op) : List String :=
+  if !isFaultOp op then [] else
+  let c := faultOpCreator op
+  let isFishman := (pre.getNode c).isSome && pre.params.fishmen.contains c
+  let newFaults := post.faults.filter (fun f => !pre.faults.any (fun g => g.key = f.key))
+  let changedFaults := post.faults.filter (fun f => !pre.faults.contains f)
+  -- 1. only fishmen file or confirm; a provider may only touch faults recorded against itself
+  (if changedFaults ≠ [] ∧ !isFishman ∧ !(changedFaults.all (fun f => f.provider = c)) then ["non-fishman-changed-faults"] else []) ++
+  (if newFaults ≠ [] ∧ !isFishman then ["non-fishman-filed"] else []) ++
+  -- 2. a recorded report names an existing, unexpired shard the accused holds for the named order and model
+  (newFaults.filterMap (fun f =>
+    match pre.getOrder f.orderId, pre.getShard f.shardId with
+    | some o, some sh =>
+      if o.shards.contains f.shardId && sh.sp = f.provider && o.dataId = f.dataId && (pre.getMeta f.dataId).isSome &&
+         addU64 sh.createdAt sh.duration > toU64 pre.h then none else some s!"invalid-report-shard{f.shardId}-order{f.orderId}"
+    | _, _ => some s!"invalid-report-shard{f.shardId}-order{f.orderId}")) ++
+  -- 3. nothing but the fault stores and the accused provider's own pledge changes
+  (if pre.bank ≠ post.bank || pre.supply ≠ post.supply then ["balances-changed"] else []) ++
+  (if pre.orders ≠ post.orders || pre.shards ≠ post.shards || pre.metas ≠ post.metas then ["orders-or-shards-changed"] else []) ++
+  (if pre.nodes ≠ post.nodes || pre.workers ≠ post.workers || pre.debts ≠ post.debts || pre.pool ≠ post.pool then ["node-state-changed"] else []) ++
+  (if (post.pledges.filter (fun p => p.creator ≠ faultOpProvider op)) ≠ (pre.pledges.filter (fun p => p.creator ≠ faultOpProvider op)) then ["other-pledge-changed"] else [])
+
 def checkState (e : Env) (s : State) : List (String × String) :=
   (violators e s).filterMap (fun (p, c, recs) => if recs.isEmpty then none else some (p, s!"clause={c} cls=genesis rec={recs}"))
 
@@ -153,6 +197,8 @@ def checkStep (e : Env) (pre : Sys) (op : Op) (res : Res) (post : Sys) : List (S
    else []) ++
   -- C10: the actor of an accepted message must be entitled to act for what it touched
   (if res = .ok then (actorViolations pre.st op).map (fun v => ("C10", s!"clause=actor cls={match op with | .cancel .. => "cancel-claimed-provider" | _ => "none"} rec={v}")) else []) ++
+  -- C19
+  (if res = .ok then (faultViolations pre.st post.st op).map (fun v => ("C19", s!"clause=faultReport cls=none rec={v}")) else []) ++
   -- C17: a binding was created although the signed proof message does not name the DID
   (match op, res with
    | .binding m, .ok => if m.proofNamesDid then [] else [("C17", "clause=proofNamesDid cls=unbound-message")]
